@@ -583,6 +583,12 @@ class Score(Contract):
     prefix = "C16.py.score"
     inline = ("formak.python:force_to_ndarray",)
 
+    def __init__(self, explain=True):
+        # explain_score is optional and off by default (scikit-learn calls score(X) / score(X, y)): then the bare total is returned
+        self.explain = explain
+        if not explain:
+            self.prefix = "C16.py.score[plain]"
+
     def setup(self, I):
         from contracts.sklearn import ALLOWED, DiagFlatten, adapter_class
         from pvc.symtheory import SDictV, Sym, SymV, real_wrap
@@ -612,7 +618,7 @@ class Score(Contract):
         I.inline |= {"formak.python:SklearnEKFAdapter._flatten_dict_diagonal"}
         X = DataX(z3.Const("X", DataS), z3.IntVal(3), z3.IntVal(3))
         old = dict(obj.fields)
-        return Call([obj, X], {"explain_score": True}, obj=obj, old=old)
+        return Call([obj, X], ({"explain_score": True} if self.explain else {}), obj=obj, old=old)
 
     def post(self, I, call, outcome):
         from pvc.models import sqrt_f
@@ -622,6 +628,20 @@ class Score(Contract):
             P.oblige(f"{pre}.no_exception_for_positive_finite_input", z3.BoolVal(False), note=f"raises {outcome[1]}")
             return
         rv = outcome[1]
+        if not self.explain:
+            from pvc.sym import is_numeric
+
+            plain = is_numeric(rv) and not isinstance(rv, bool)
+            P.oblige(f"{pre}.returns_a_number", z3.BoolVal(plain))
+            if plain:
+                d, q = self.d, self.q
+                mean = (sqrt_f(d[0]) + sqrt_f(d[1]) + sqrt_f(d[2])) / 3
+                var = d[0] + d[1] + d[2]
+                total = 10 * (mean * mean) + 1 * ((1 / var + var) / 2) + z3.RealVal("1/100") * (q[0] * q[0] + q[1] * q[1] + q[2] * q[2])
+                P.oblige(f"{pre}.total_is_weighted_sum", to_real(rv) == total)
+            for f, v in call.old.items():
+                P.oblige(f"{pre}.frame.{f}", z3.BoolVal(call.obj.fields.get(f) is v))
+            return
         ok = isinstance(rv, tuple) and len(rv) == 2 and isinstance(rv[1], tuple) and len(rv[1]) == 6
         P.oblige(f"{pre}.explained_result_shape", z3.BoolVal(ok))
         if ok:
